@@ -19,4 +19,8 @@ MUTANTS = [
  {"id": "probe-last-close-brace", "kind": "break", "edits": [(P, "let Some(n) = rest.find('}') else {", "let Some(n) = rest.rfind('}') else {")], "expect": ["D1-BRACE-PAIR"]},
  {"id": "probe-alternatives-split-on-semicolon", "kind": "break", "edits": [(P, "for m in matches.split(',') {", "for m in matches.split(';') {")], "expect": ["D"]},
  {"id": "probe-alternatives-splitn-two", "kind": "break", "edits": [(P, "for m in matches.split(',') {", "for m in matches.splitn(2, ',') {")], "expect": ["D"]},
+
+ {"id": "probe-unbalanced-open-accepted", "kind": "break", "edits": [(P, "            if !stack.is_empty() {\n                return Err(PatternError::Alternate);\n            }", "            if stack.len() > 1 {\n                return Err(PatternError::Alternate);\n            }")], "expect": ["D4-BALANCE"]},
+ {"id": "probe-close-before-open-accepted", "kind": "break", "edits": [(P, "} else if ch == '}' && stack.pop().is_none() {\n                    return Err(PatternError::Alternate);\n                }", "} else if ch == '}' {\n                    stack.pop();\n                }")], "expect": ["D4-BALANCE"]},
+ {"id": "probe-alternate-only-when-open-brace", "kind": "break", "edits": [(P, "if pattern.contains('{') || pattern.contains('}') {", "if pattern.contains('{') {")], "expect": []},
 ]
